@@ -499,7 +499,7 @@ const ruleID = "a parameter set within the documented limits (2-8 participants: 
 func TestID(t *testing.T) {
 	rec := h.Begin("C17", "id")
 	rec.SetRule(ruleID,
-		"only backend id 0 (sim) is registered in this tree: every participant map has exactly the key 0; empty participant maps are not generated (decoding them panics: F5, property C13)",
+		"only backend id 0 (sim) is registered in this tree: every participant map has exactly the key 0; empty participant maps are not generated in this part (F5, property C13; classified in part constraints)",
 		"the nonce is non-negative; an app is identified by its definition (payment definitions start with byte 0x50, as the harness resolver requires)",
 		"aux is not named by the property and not hashed by the sim backend: aux variants are classified (unlisted:aux:id-same), not asserted",
 		"participant keys come from a per-process pool; cases are key-independent",
